@@ -211,7 +211,19 @@ func (db *DB) ScanPrefix(prefix []byte, errOut *error) iter.Seq[kv.Entry] {
 	verifhook.At("dkv.scan.between", db)
 	sstables := db.currentSSTables()
 	iters := []iter.Seq[kv.Entry]{memEntries, sstables.ScanPrefix(prefix, errOut)}
-	return kv.MergeEntries(iters)
+
+	// Return the merged entries without deleted records. Tombstones in the
+	// memtables take part in the merge so that they mask older sstable values.
+	return func(yield func(kv.Entry) bool) {
+		for entry := range kv.MergeEntries(iters) {
+			if entry.IsDelete() {
+				continue
+			}
+			if !yield(entry) {
+				return
+			}
+		}
+	}
 }
 
 // Checkpoint initiates a DB checkpoint associated with the caller's provided
